@@ -3,14 +3,15 @@
 # Applies each seeded defect to /repo, runs the property's quick check, reverts.
 # Expected: exit 1 with a VIOLATION line.  Prints one result line per seed.
 # VERIF_REPO=<worktree> runs the round against a scratch worktree instead of /repo.
-cd /verif || exit 2
+here="$(cd "$(dirname "$0")" && pwd)"
+cd "$here" || exit 2
 REPO="${VERIF_REPO:-/repo}"
 seeds="$*"; [ -z "$seeds" ] && seeds="$(ls seeded)"
 for s in $seeds; do
   id="${s%%_*}"
   if ! git -C "$REPO" diff --quiet; then echo "$s: $REPO has local changes, skipping"; continue; fi
-  if ! git -C "$REPO" apply --check "/verif/seeded/$s/patch.diff" 2>/dev/null; then echo "$s: patch does not apply"; continue; fi
-  git -C "$REPO" apply "/verif/seeded/$s/patch.diff"
+  if ! git -C "$REPO" apply --check "$here/seeded/$s/patch.diff" 2>/dev/null; then echo "$s: patch does not apply"; continue; fi
+  git -C "$REPO" apply "$here/seeded/$s/patch.diff"
   out="$(./check "$id" --tier quick 2>&1)"; code=$?
   git -C "$REPO" checkout -- .
   line="$(echo "$out" | grep -m1 '^VIOLATION')"
